@@ -1211,7 +1211,7 @@ Qed.
    walks the top layer's own map only, export / ToJSON walk the merged keys *)
 Definition tostring_agrees_statement : Prop :=
   forall (c : chain) (v : xval), export big_fuel c = Some v -> x_has_unknown v = false ->
-    fst (fst (to_string big_fuel c)) = jstring (S (x_depth v)) (x_to_json (S (x_depth v)) v).
+    fst (fst (to_string (ts_need c) c)) = jstring (S (x_depth v)) (x_to_json (S (x_depth v)) v).
 
 (* {a: "1"} merged over the base {b: "2"} *)
 Definition inherit_chain : chain :=
@@ -1224,7 +1224,7 @@ Definition inherit_value : xval :=
 Lemma inherit_export : export big_fuel inherit_chain = Some inherit_value.
 Proof. vm_compute. reflexivity. Qed.
 
-Lemma inherit_to_string : to_string big_fuel inherit_chain = ("""a""=""1""", false, false).
+Lemma inherit_to_string : to_string (ts_need inherit_chain) inherit_chain = ("""a""=""1""", false, false).
 Proof. vm_compute. reflexivity. Qed.
 
 Lemma inherit_jstring :
